@@ -955,6 +955,13 @@ def extract_fields(obj: model.CanContainImportsDocumentable) -> None:
                 obj.report("Missing field name in @%s" % (tag,),
                            'docstring', field.lineno)
                 continue
+            if '.' in arg:
+                # A dotted name is not the name of a variable of this module or class:
+                # an object of that name would take the place of (or be taken for) 
+                # an object of a nested namespace.
+                obj.report(f'Field "{tag} {arg}" does not name a variable of {obj.fullName()!r}',
+                           'docstring', field.lineno)
+                continue
             attrobj: Optional[model.Documentable] = obj.contents.get(arg)
             if attrobj is not None and not isinstance(attrobj, model.Attribute):
                 # The name is bound to a module, a class or a function: the field must not
